@@ -16,13 +16,24 @@ def vec(module, profiles, fields, nontrivial, **kw):
 SPECS = {
     # contents / returned values / panic-no-panic / capacity of every call: model vs crate (all fields), crate vs std (oracle)
     "C13": vec("BumpVerif.Props.C13",
-               [("general", 900, 45), ("bounds", 700, 45), ("iters", 500, 45), ("growth", 400, 45), ("zst", 400, 40), ("copy", 300, 40)],
+               [("general", 900, 45), ("bounds", 700, 45), ("iters", 500, 45), ("growth", 400, 45), ("zst", 400, 40), ("copy", 300, 40), ("panics", 500, 45)],
                ["res", "len", "cap", "ids", "moved"], VEC_OPS,
                quick_release=[("bounds", 300, 45), ("general", 200, 45)], thorough_scale=40,
-               partial=["per-method refinement theorems are proved for: push, pop, insert, remove, swap_remove, truncate, clear, append, "
-                        "split_off, drain (all range forms), retain, drain_filter, into_iter (front/back), reserve family; NOT proved (covered by "
-                        "the correspondence + std side-by-side run only): resize, extend, extend_from_slice(_copy), extend_from_slices_copy, "
-                        "splice, dedup(_by/_by_key), shrink_to_fit, clone, into_boxed_slice, from_iter_in/collect_in, vec!, io::Write",
+               partial=["per-method refinement theorems are proved for every method of the list: push, pop, insert, remove, swap_remove, "
+                        "truncate, clear, append, split_off, drain (all range forms), retain, drain_filter, into_iter (front/back), reserve "
+                        "family, and (Proofs/VecRefine2.lean, Proofs/VecSplice.lean) splice (every path incl. lying size_hint, refused "
+                        "growth, panics: C13_splice_any), extend / from_iter_in / collect_in, extend_from_slice, clone, resize, "
+                        "extend_from_slice_copy, extend_from_slices_copy, io::Write, dedup / dedup_by / dedup_by_key, shrink_to_fit, "
+                        "into_boxed_slice, vec! (both forms). Restrictions of these theorems: 'the call returns' is proved under a "
+                        "sufficient condition (GrowOK c N: the arena serves every buffer of up to 2N elements, N >= final length + the "
+                        "iterator's claimed size_hint), not under the exact refusal condition of each reservation; dedup* contents only "
+                        "for a comparison that is a function of the two elements (index-dependent or panicking comparisons: permutation + "
+                        "no-leak theorems of C15/C16 only); truncate / resize-shrink contents only for destructors that do not panic "
+                        "(panicking ones: C16); clone 'returns' assumes with_capacity_in(len) is served",
+                        "not modelled, hence neither proved nor compared: Splice::next_back (only next() on a Splice is exercised); the "
+                        "temporary `collected` vector inside Splice::drop is a plain list in the model (its own growth cannot fail there); "
+                        "io::Write is a model function (= extend_from_slice_copy, as in the source) checked against std::vec::Vec by the "
+                        "harness oracle but not replayed by the model driver",
                         "the buffer address is not compared here (arena model); capacity values are compared with the model of RawVec"],
                assumptions=["callbacks do not mutate the elements they are shown (&mut T predicates are modelled as pure answers)"]),
     # drop ledger: which destructors ran, in which order, what was handed to the caller
@@ -32,10 +43,11 @@ SPECS = {
                ["pop", "remove", "swap_remove", "truncate", "clear", "resize", "drain", "splice", "drain_filter", "retain", "dedup",
                 "dedup_by", "dedup_by_key", "into_iter", "into_bump_slice", "into_boxed", "drop", "append", "split_off", "extend",
                 "clone", "insert", "push"], thorough_scale=40,
-               partial=["Own preservation is proved for: push, pop, insert, remove, swap_remove, truncate/clear, append, split_off, drain, "
-                        "into_iter, retain, drain_filter, dedup(_by/_by_key), extend (caller's iterator), drop, into_bump_slice (and, in "
-                        "Props/C16, resize, extend_from_slice, clone, from_iter_in); NOT proved (drop-ledger oracle + model comparison of the "
-                        "drops/moved sequences only): splice, into_boxed_slice, vec!"]),
+               partial=["Own preservation is proved for every method of the list: push, pop, insert, remove, swap_remove, truncate/clear, "
+                        "append, split_off, drain, into_iter, retain, drain_filter, dedup(_by/_by_key), extend (caller's iterator), drop, "
+                        "into_bump_slice, splice (every path), into_boxed_slice (+ drop of the box), vec! (both forms, every path) (and, in "
+                        "Props/C16, resize, extend_from_slice, clone, from_iter_in); not modelled: Splice::next_back; a second panic while "
+                        "unwinding aborts the process and is outside the statement"]),
     # unwinding paths: every callback index as panic point
     "C16": vec("BumpVerif.Props.C16",
                [("panics", 2400, 45), ("iters", 200, 40)],
@@ -44,7 +56,9 @@ SPECS = {
                 "from_iter", "collect_in", "vmacro_n", "truncate", "clear", "drop", "into_iter", "drain", "into_boxed"],
                quick_release=[("panics", 400, 45)], thorough_scale=40,
                partial=["full theorems (every callback answer function / panic index): drain_filter, retain, dedup_by(_key), truncate, clear, "
-                        "drop, into_iter and drain dropped with panicking destructors, resize / extend_from_slice / clone with a panicking "
-                        "Clone, extend / from_iter_in with a panicking iterator; NOT proved (panic-injection run only): splice with a "
-                        "panicking iterator, vec!"]),
+                        "drop, into_iter and drain dropped with panicking destructors, resize / extend_from_slice / clone / vec![elem; n] "
+                        "with a panicking Clone, extend / from_iter_in / splice with an iterator panicking at any next() call (splice: also "
+                        "with a panicking destructor of a drained element and any size_hint; where the elements are afterwards: "
+                        "C16_splice_contents); one panic per call: a second panic while unwinding aborts the process and is outside the "
+                        "statement; not modelled: Splice::next_back"]),
 }
